@@ -4,14 +4,21 @@ from vt.pipeline import Query
 CLAIM = ('Selection logic of the real Dubins distance code (global dubins(d,alpha,beta) -> dubinsExhaustive) with the six word solvers and the '
          'long-path test cut at IR level to environment stubs that offer an ARBITRARY candidate per word (any subset solvable, symbolic '
          'integer segment lengths): each word is evaluated once, the returned word is one of the offered candidates and its length is the '
-         'minimum over the offered ones - i.e. "the Dubins distance equals the shortest of the six canonical words" as far as selection goes.')
-OUT = ('that the words are real curves reaching the target, the 16-class classification table of the long-path branch, interpolation along the '
+         'minimum over the offered ones - i.e. "the Dubins distance equals the shortest of the six canonical words" as far as selection goes. '
+         'Long-path (classification) branch, with the 15 switching functions additionally cut to arbitrary values: for every class (alpha, beta '
+         'quadrants by real comparisons) and every sign pattern of the switching functions the branch evaluates one or two CSC words (never a '
+         'CCC word, none twice), returns an offered candidate, and in the two-candidate classes the shorter of the two.')
+OUT = ('that the words are real curves reaching the target, WHICH word each class of the long-path table selects (optimality of the classification), interpolation along the '
        'curve, symmetric variant, everything about Reeds-Shepp, RS <= Dubins, prefix optimality: all rest on sin/cos/atan2/acos identities')
-ASSUMPTIONS = ['the six word solvers and isLongPath are environment stubs (calls redirected in the IR of DubinsStateSpace.cpp, compiled with -fno-inline so that every solver is a call)',
+ASSUMPTIONS = ['the six word solvers, isLongPath and (long-path query) the 15 switching functions s_xx are environment stubs (calls redirected in the IR of DubinsStateSpace.cpp, compiled with -fno-inline so that every solver is a call)',
                'fmod is a contract stub']
 D = 'declare void @%s(%%"class.ompl::base::DubinsStateSpace::DubinsPath"*, double, double, double)'
 REDIR = {'_ZN12_GLOBAL__N_19dubins%sEddd' % w: ('vt_word_' + w, D % ('vt_word_' + w)) for w in ('LSL', 'RSR', 'RSL', 'LSR', 'RLR', 'LRL')}
-REDIR['_ZN12_GLOBAL__N_110isLongPathEddd'] = ('vt_is_long_path', 'declare zeroext i1 @vt_is_long_path(double, double, double)')
+SW = ('12', '13', '14_1', '21', '22_1', '22_2', '24', '31', '33_1', '33_2', '34', '41_1', '41_2', '42', '43')
+REDIR_LONG = dict(REDIR)
+for n in SW:
+    REDIR_LONG['_ZN12_GLOBAL__N_1%ds_%sEddd' % (len(n) + 2, n)] = ('vt_sw_' + n, 'declare double @vt_sw_%s(double, double, double)' % n)
+REDIR['_ZN12_GLOBAL__N_110isLongPathEddd'] = REDIR_LONG['_ZN12_GLOBAL__N_110isLongPathEddd'] = ('vt_is_long_path', 'declare zeroext i1 @vt_is_long_path(double, double, double)')
 
 
 def queries(tier):
@@ -20,6 +27,6 @@ def queries(tier):
                   defines={'LONGPATH': 0}, cxxflags=('-fno-inline',), tu_redirect=REDIR, stubs=('fmod.c',), renames={'fmod': 'vt_fmod'}, unwind=24, timeout=to,
                   checks='none', bound='every subset of solvable words, every segment length in [0,15], d in [1e-3,100], alpha,beta in [0,6]')]
     qs.append(Query('word_selection[long-path branch]', 'C14_dubins.cpp', 'harness_word_selection', tus=['src/ompl/base/spaces/src/DubinsStateSpace.cpp'],
-                    defines={'LONGPATH': 1}, cxxflags=('-fno-inline',), tu_redirect=REDIR, stubs=('fmod.c',), renames={'fmod': 'vt_fmod'}, unwind=24, timeout=to,
-                    checks='none', bound='classification branch: the result is an offered candidate (which class is chosen is NOT checked)'))
+                    defines={'LONGPATH': 1}, cxxflags=('-fno-inline',), tu_redirect=REDIR_LONG, stubs=('fmod.c',), renames={'fmod': 'vt_fmod'}, unwind=24, timeout=to,
+                    checks='none', bound='classification branch: every class and switching-function outcome; which word a class selects is NOT checked against optimality'))
     return qs
